@@ -25,7 +25,7 @@ from vf import ref_c18 as R
 
 PROP = 'C18'
 NEEDS_JIT = True
-TIMEOUT = {'quick': 1200, 'thorough': 3400}
+TIMEOUT = {'quick': 3000, 'thorough': 7000}
 RULE = ("generated configuration files + command lines on generated 8x8x8 "
         "worlds (1-3 sources, 3-5 receivers, 1-2 frequencies, observed data "
         "with NaNs, six mappings, four anisotropy cases): every documented "
@@ -73,7 +73,7 @@ def plan(tier, seed):
             out.append({'id': f'q{b}', 'k': b,
                         'singles': singles[b::nb], 'single_rep': 1,
                         'n_combo': 7, 'n_override': 3, 'n_unknown': 5,
-                        'n_seq': 2, 'n_known': 2,
+                        'n_seq': 2, 'n_known': 3,
                         'misc': ['verbosity', 'version', 'subprocess',
                                  'docsync'][b % 4]})
         return out
@@ -83,7 +83,7 @@ def plan(tier, seed):
         out.append({'id': f't{b}', 'k': 1000+b,
                     'singles': singles[b % 20::20], 'single_rep': 2,
                     'n_combo': 26, 'n_override': 8, 'n_unknown': 12,
-                    'n_seq': 6, 'n_known': 3,
+                    'n_seq': 6, 'n_known': 6,
                     'misc': ['verbosity', 'version', 'subprocess',
                              'docsync'][b % 4], 'n_sub': 3})
     return out
@@ -232,10 +232,13 @@ def install_monitors():
             kw = dict(kwargs)
             for n, a in zip(('max_workers', 'gridding'), args):
                 kw[n] = a
-            Mon.events.append({
-                'call': 'Simulation', 'in_from_file': Mon.depth_from_file > 0,
-                'kwargs': R.canon(kw), 'raw': kw, 'obj': self,
-                'survey': survey_sig(survey), 'model': model_sig(model)})
+            ev = {'call': 'Simulation', 'raw': kw, 'obj': self,
+                  'in_from_file': Mon.depth_from_file > 0}
+            try:        # a monitor must never disturb the monitored call
+                ev.update(survey=survey_sig(survey), model=model_sig(model))
+            except Exception as e:  # noqa
+                ev.update(survey=None, model=None, monitor_error=repr(e))
+            Mon.events.append(ev)
         return o_init(self, survey, model, *args, **kwargs)
     Sim.__init__ = init
 
@@ -335,6 +338,25 @@ def install_monitors():
                 (np.array(standard_deviation, copy=True), kw, noise.copy()))
         return noise
     surveys.random_noise = random_noise
+
+    # Harness-side speed-up only: every CLI run logs a scooby report, which
+    # re-reads the metadata of all installed distributions (0.5 s).
+    try:
+        import scooby.report as sr
+        o_inst = sr.Report.installed_packages.fget
+        cache = {}
+
+        def installed_packages(self):
+            if 'v' not in cache:
+                cache['v'] = o_inst(self)
+            return dict(cache['v'])
+        sr.Report.installed_packages = property(installed_packages)
+        import functools
+        import platform
+        platform.architecture = functools.lru_cache(None)(
+            platform.architecture)      # (spawns `file` on every call)
+    except Exception:  # noqa
+        pass
     Mon.installed = True
 
 
@@ -407,7 +429,7 @@ def results_of(sim, function, noise, layered_change=None):
         sim.compute()
         res['data'] = np.array(sim.data.synthetic.data)
     if function in ('misfit', 'gradient'):
-        res['misfit'] = float(sim.misfit)
+        res['misfit'] = float(np.asarray(sim.misfit))
         res['n_observations'] = int(sim.survey.count)
     if function == 'gradient':
         res['gradient'] = np.array(sim.gradient)
@@ -427,8 +449,10 @@ def run_api(exp, cwd, free, seq=None):
     try:
         os.chdir(cwd)
         with contextlib.redirect_stdout(buf), \
-                contextlib.redirect_stderr(buf), warnings.catch_warnings():
-            warnings.simplefilter('ignore')
+                contextlib.redirect_stderr(buf), \
+                warnings.catch_warnings(record=True) as wlist:
+            warnings.simplefilter('always')
+            out['wlist'] = wlist
             try:
                 f = exp['files']
                 if seq is not None:         # load an existing simulation
@@ -526,7 +550,10 @@ def get_cfg(case, section, key, default=None):
 
 
 def file_name(r, role, fmt=None):
-    fmt = fmt or gen.choice(r, ['h5', 'npz', 'json'])
+    # (a Simulation with a computed misfit cannot be stored as json at all,
+    #  neither through the CLI nor through the API: not a C18 matter)
+    fmt = fmt or gen.choice(r, ['h5', 'npz', 'json'] if role not in (
+        'save', 'load', 'cache') else ['h5', 'npz'])
     base = {'survey': ['mysurvey', 'data_A', 's1'],
             'model': ['mymodel', 'resistivity', 'm1'],
             'output': ['result', 'out_1', 'emg3d-res'],
@@ -590,12 +617,16 @@ def build_combo(r, case, ctx, dry=None):
     else:
         # layered: gridding has no effect, but must still be consistent
         add_cfg(case, r, 'simulation', 'gridding', ctx, value=('same', 'same'))
-    for key, p in (('max_workers', 0.6), ('name', 0.4), ('file_dir', 0.2),
+    for key, p in (('max_workers', 0.4), ('name', 0.4), ('file_dir', 0.2),
                    ('receiver_interpolation', 0.4)):
         if r.random() < p:
             add_cfg(case, r, 'simulation', key, ctx)
     if r.random() < 0.3:
-        case['tv']['nproc'] = int(gen.choice(r, [1, 2]))
+        case['tv']['nproc'] = int(gen.choice(r, [1]*9 + [2]))
+    elif not has_cfg(case, 'simulation', 'max_workers') and \
+            r.random() < 0.95:
+        # process pools (API default: 4 workers) are expensive: rare
+        case['tv']['nproc'] = 1
     # [solver_opts]
     if r.random() < 0.7:
         keys = [k for k, _, _ in R.SPEC['solver_opts']]
@@ -664,6 +695,33 @@ def build_combo(r, case, ctx, dry=None):
     return case
 
 
+def avoid_freq_npz(case):
+    """gridding=frequency with a survey stored as npz is its own input
+    class ('freq_npz'); everywhere else the survey then becomes an h5."""
+    if get_cfg(case, 'simulation', 'gridding') != 'frequency':
+        return
+    for it in case['cfg'].get('files', []):
+        if it[0] == 'survey' and it[2].endswith('.npz'):
+            it[1] = it[2] = it[2][:-4] + '.h5'
+    if (case['tv'].get('survey') or '').endswith('.npz'):
+        case['tv']['survey'] = case['tv']['survey'][:-4] + '.h5'
+
+
+def build_freq_npz(r, case, ctx):
+    add_cfg(case, r, 'simulation', 'gridding', ctx,
+            value=('frequency', 'frequency'))
+    name = gen.choice(r, ['mysurvey.npz', 'data_A.npz'])
+    if r.random() < 0.5:
+        case['tv']['survey'] = name
+    else:
+        add_cfg(case, r, 'files', 'survey', ctx, value=(name, name))
+    case['tv']['nproc'] = 1
+    case['tv']['dry_run'] = bool(r.random() < 0.5)
+    if r.random() < 0.5:
+        add_cfg(case, r, 'solver_opts', 'maxit', ctx)
+    return case
+
+
 def needs_small(case):
     g = get_cfg(case, 'simulation', 'gridding', 'single')
     return g != 'same'
@@ -672,7 +730,7 @@ def needs_small(case):
 def build_single(r, case, ctx, item):
     kind, section, key = item
     tv = case['tv']
-    if key not in ('nproc', 'max_workers') and (case['i'] + case['k']) % 4:
+    if key not in ('nproc', 'max_workers') and (case['i'] + case['k']) % 8:
         tv['nproc'] = 1      # context only: keeps the process pools away
     if kind == 'cfg':
         if section == 'files':
@@ -699,6 +757,8 @@ def build_single(r, case, ctx, item):
             v = vals[(case['i'] + case['k'] + case.get('rep', 0)) % 5]
             add_cfg(case, r, section, key, ctx, value=(v, v))
         else:
+            if key == 'max_workers':
+                ctx['workers'] = [2, 3]
             add_cfg(case, r, section, key, ctx)
     else:
         if key == 'nproc':
@@ -894,7 +954,9 @@ def judge(rec, case, exp, seq, cli, cwd, world):
         rec.event('consistent_errors')
         rec.extra_set('consistent_error_types',
                       [(exc_str(api['exc']) or '')[:110] + ' / ' +
-                       type(cli['exc']).__name__])
+                       type(cli['exc']).__name__ + ' ' + ' '.join(
+                           str(w.message)[:160] for w in api['wlist']
+                           if 'de-serialize' in str(w.message))])
         return
     if cli['exc'] is not None:
         cs['cli_traceback'] = cli['tb']
@@ -905,6 +967,9 @@ def judge(rec, case, exp, seq, cli, cwd, world):
             key = 'C18:clean-without-gridding-opts-keyerror'
         elif case['cls'] == 'override_path' and is_path_typeerror(cli['exc']):
             key = 'C18:path-on-terminal-and-in-file-typeerror'
+        elif case['cls'] == 'freq_npz' and isinstance(
+                cli['exc'], TypeError) and 'unhashable' in str(cli['exc']):
+            key = 'C18:gridding-frequency-with-npz-survey-typeerror'
         else:
             key = vkey(case, 'C18:documented-option-rejected')
         rec.event('acceptance_checks')
@@ -1188,6 +1253,8 @@ def run_regular(rec, seed, k, i, cls, builder, function, lay_ok, small=None,
         world_b = None
         ctx = ctx_of(world, cwd, lay_ok)
         builder(r, case, ctx)
+        if cls != 'freq_npz':
+            avoid_freq_npz(case)
         set_function(case, r)
         if case['decoy'] or case['premade'] and case['tv'].get('clean'):
             world_b = make_world(gen.rng(seed, 'C18', k, i, 'worldB'), lay_ok,
@@ -1216,6 +1283,7 @@ def run_unknown(rec, seed, k, i):
                     value=('same', 'same'))
             case['cfg'].pop('gridding_opts', None)
         set_function(case, r)
+        avoid_freq_npz(case)
         u = r.random()
         if u < 0.8:
             sec = R.SECTIONS[(i + k) % len(R.SECTIONS)]
@@ -1269,7 +1337,7 @@ def build_override(r, case, ctx):
     else:
         tv['dry_run'] = True
     if which == 'nproc':
-        a, b = gen.choice(r, [(1, 2), (2, 1), (3, 2), (4, 1)])
+        a, b = gen.choice(r, [(2, 1), (3, 1), (4, 1), (1, 2)])
         add_cfg(case, r, 'simulation', 'max_workers', ctx, value=(str(a), a))
         tv['nproc'] = b
     elif which == 'layered':
@@ -1311,6 +1379,8 @@ def build_override(r, case, ctx):
     if r.random() < 0.5:
         for key in ('tol', 'maxit'):
             add_cfg(case, r, 'solver_opts', key, ctx)
+    if which != 'nproc':
+        tv['nproc'] = 1
     return case
 
 
@@ -1337,12 +1407,18 @@ def run_sequence(rec, seed, k, i, cls='sequence'):
         if r.random() < 0.4:
             add_cfg(c1, r, 'noise_opts', 'add_noise', ctx,
                     value=('False', False))
-        simname = file_name(r, 'save')
+        f2 = gen.choice(r, ['forward', 'misfit', 'gradient'])
+        how = gen.choice(r, ['load', 'cache', 'cfg_load', 'cfg_cache'])
+        json_ok = f1 == 'forward' and (f2 == 'forward' or 'load' in how)
+        simname = file_name(r, 'save', fmt=gen.choice(
+            r, ['h5', 'npz', 'json'] if json_ok else ['h5', 'npz']))
         if r.random() < 0.5:
             c1['tv']['save'] = simname
         else:
             add_cfg(c1, r, 'files', 'save', ctx, value=(simname, simname))
         c1['tv']['dry_run'] = bool(r.random() < 0.2)
+        if r.random() < 0.9:
+            c1['tv']['nproc'] = 1
         set_function(c1, r)
         exp1, _ = materialise(r, c1, cwd, world)
         cli1 = run_cli(c1['argv'], cwd)
@@ -1352,10 +1428,7 @@ def run_sequence(rec, seed, k, i, cls='sequence'):
         if cli1['exc'] is not None or not os.path.isfile(simfile):
             return
         # step 2: load it again
-        f2 = gen.choice(r, ['forward', 'misfit', 'gradient'])
         c2 = fresh_case(cls, k, i, f2, lay_ok)
-        c2['i'] = i
-        how = gen.choice(r, ['load', 'cache', 'cfg_load', 'cfg_cache'])
         if how.startswith('cfg_'):
             add_cfg(c2, r, 'files', how[4:], ctx, value=(simname, simname))
         else:
@@ -1402,6 +1475,7 @@ def run_sequence(rec, seed, k, i, cls='sequence'):
 
 def build_cell_number(r, case, ctx):
     add_gridding_keys(case, r, ctx, ['cell_number'])
+    case['tv']['nproc'] = 1
     case['tv']['dry_run'] = bool(r.random() < 0.5)
     if r.random() < 0.5:
         keys = [k for k in ('frequency', 'lambda_factor', 'max_buffer',
@@ -1435,7 +1509,7 @@ def run_verbosity(rec, seed, k, i):
             add_cfg(case, r, 'noise_opts', 'add_noise', ctx,
                     value=('False', False))
             case['tv'].update(dry_run=dry, verb_tokens=toks,
-                              function_given=True)
+                              function_given=True, nproc=1)
             exp, seq = materialise(r, case, cwd, world)
             cli = run_cli(case['argv'], cwd)
             rec.case()
@@ -1449,9 +1523,11 @@ def run_verbosity(rec, seed, k, i):
                 rec.violation('C18:files', 'no log file',
                               case_summary(case, world))
         rec.event('verbosity_checks')
-        ok = (counts['q'] <= counts['0'] <= counts['v'] <= counts['vv'] and
-              counts['q'] < counts['vv'] and counts['n-1'] == counts['q'] and
-              counts['n1'] == counts['v'] and counts['n2'] == counts['vv'])
+        # levels: {-q, --verbosity -1} <= {default} <= {-v, 1} < {-vv, 2}
+        lv = [(counts['q'], counts['n-1']), (counts['0'],),
+              (counts['v'], counts['n1']), (counts['vv'], counts['n2'])]
+        ok = (max(lv[0]) <= min(lv[1]) and max(lv[1]) <= min(lv[2]) and
+              max(lv[2]) < min(lv[3]))
         if not ok:
             rec.violation('C18:verbosity-order',
                           f'non-empty console lines per verbosity: {counts}',
@@ -1496,6 +1572,7 @@ def run_subprocess(rec, seed, k, i):
         add_cfg(case, r, 'noise_opts', 'add_noise', ctx,
                 value=('False', False))
         set_function(case, r)
+        avoid_freq_npz(case)
         exp, seq = materialise(r, case, cwd, world)
         p = subprocess.run([sys.executable, '-m', 'emg3d'] + case['argv'],
                            cwd=cwd, stdout=subprocess.PIPE,
@@ -1647,10 +1724,13 @@ def run_one(rec, batch, i, kind, payload):
     elif kind == 'sequence':
         run_sequence(rec, seed, k, i)
     elif kind == 'known':
-        if (payload + k) % 2 == 0:
-            r0 = gen.rng(seed, 'C18', k, i, 'pre')
-            function = gen.choice(r0, ['forward', 'misfit', 'gradient'])
+        r0 = gen.rng(seed, 'C18', k, i, 'pre')
+        function = gen.choice(r0, ['forward', 'misfit', 'gradient'])
+        if (payload + k) % 3 == 0:
             run_regular(rec, seed, k, i, 'cell_number', build_cell_number,
+                        function, False, small=True)
+        elif (payload + k) % 3 == 1:
+            run_regular(rec, seed, k, i, 'freq_npz', build_freq_npz,
                         function, False, small=True)
         else:
             run_sequence(rec, seed, k, i, cls='clean_nogrid')
@@ -1669,8 +1749,40 @@ def run_one(rec, batch, i, kind, payload):
             run_verbosity(rec, seed, k, i)
 
 
+def warm_in_process():
+    """Load every JIT kernel into this process, so that the process pools
+    forked by Simulation inherit them instead of re-loading the cache."""
+    import emg3d
+    with contextlib.redirect_stdout(io.StringIO()), \
+            contextlib.redirect_stderr(io.StringIO()), \
+            warnings.catch_warnings():
+        warnings.simplefilter('ignore')
+        for j, gridding in enumerate(('same', 'single')):
+            w = make_world(gen.rng(12345, 'C18', 'warm', j), False, small=True)
+            survey = emg3d.Survey(
+                sources=emg3d.TxElectricDipole((-200., 0., -500., 20., 5.)),
+                receivers=[emg3d.RxElectricPoint((100., 0., -400., 0., 0.)),
+                           emg3d.RxMagneticPoint((150., 20., -400., 10., 5.))],
+                frequencies=[1.0], data=np.full((1, 2, 1), 1e-12+1e-12j),
+                noise_floor=1e-15, relative_error=0.05)
+            for ri in ('linear', 'cubic'):
+                sim = emg3d.Simulation(
+                    survey.copy(), w['model'], gridding=gridding,
+                    max_workers=1, verb=-1, tqdm_opts=False,
+                    receiver_interpolation=ri,
+                    solver_opts={'maxit': 2, 'sslsolver': j == 0,
+                                 'semicoarsening': True,
+                                 'linerelaxation': True})
+                _ = sim.gradient
+
+
 def run_batch(batch):
     rec = common.Rec(max_viol=16, max_samples=2)
+    try:
+        warm_in_process()
+    except Exception:  # noqa
+        rec.inconclusive('warm-up failed: ' + traceback.format_exc()[-600:],
+                         None)
     only = batch.get('only')
     for i, kind, payload in batch_cases(batch):
         if only is not None and i != only:
